@@ -26,7 +26,12 @@ routing  Remote.tla part 2 (M = registration queues and tables, per-source FIFOs
          routing-table graph (MC_Remote: Settled + TblView - entry absent / one lane / two lanes /
          stale writer / lane emptied / node emptied, several downlinks per lane, sibling lanes,
          two nodes, never-registered lanes) is dumped and every one of its transitions is covered
-         by a script with a settle point after each move of the environment.  TLC simulation
+         by a script with a settle point after each move of the environment.  The peer of the
+         model frames a text message as 1..3 web socket frames and writes ping / pong / close
+         control frames at any point (PeerFrag, PeerCtl, WsRead = text_frame_stream's reassembly);
+         a transition cover of the settled framing graph (MC_Remote: FragFocus) puts a ping and a
+         pong at every fragment boundary of every envelope kind; the harness peer writes raw
+         RFC 6455 frames (cuts also inside UTF-8 sequences).  TLC simulation
          of the same specification generates attach / one-way attach / write / detach / agent /
          peer scripts, concretised with node / lane / body strings from the pools (any class);
          they run on a real swimos_remote::RemoteTask over a ratchet web socket on
@@ -103,6 +108,11 @@ def render(w, node, lane, body):
 
 # ----------------------------------------------------------------------------------------- TLC helpers
 
+def mc(k):
+    """constants of MC_Remote with the defaults for the web socket framing layer (whole messages, no control frames)."""
+    return dict(dict(MaxCtl=0, MCCtl=R('{}'), MaxFrag=1), **{a: b for a, b in k.items() if not a.startswith("_")})
+
+
 def tlc_jobs(jobs, par=3):
     """run several single-purpose TLC jobs concurrently (total workers kept <= 4)."""
     res = {}
@@ -133,7 +143,7 @@ PURE_CONST = dict(Nodes=R('{"n1"}'), Lanes=R('{"l1"}'), Exists=R('{}'), Dls=R('{
 
 
 def pure_enumerate(wd):
-    c = core.cfg(next_="PureNext", constants=PURE_CONST,
+    c = core.cfg(next_="PureNext", constants=mc(PURE_CONST),
                  invariants=["RoundTripLaw", "WriterQuotesNonIdentifiers", "PureDump"])
     return core.run_tlc("MC_Remote", c, os.path.join(wd, "pure"), workers=1, timeout=300)
 
@@ -419,7 +429,7 @@ def mux_part(tier, out, wd, rng, stats, cov, res):
 
 # ----------------------------------------------------------------------------------------- routing
 
-RT_INV = ["TypeOK", "OnlyAddressee", "TablesSound", "NothingStranded", "ClosedIsFinal"]
+RT_INV = ["TypeOK", "OnlyAddressee", "TablesSound", "NothingStranded", "ClosedIsFinal", "FragmentsHeld"]
 RT_AC = ["KindFilter", "DlScript", "Urgent"]
 
 
@@ -443,10 +453,30 @@ def tbl_configs(tier):
     """settled exploration of the routing tables (MC_Remote: Settled, TblView): every table update is a transition."""
     d = dict(Nodes=R('{"n1","n2"}'), Lanes=R('{"l1","l2"}'), Exists=R('{}'), Dls=R('{1,2,3,4}'), Bodies=R('{}'), MaxInst=1,
              ServerMode=False, MaxSend=0, MaxPeer=0, MCKinds=R('{"event"}'), PathSel="D", OneWay=R('{}'))
+    # framing: one downlink on (n1, l1) and the agent of n1; the peer frames envelopes of every kind as 1..3 fragments with
+    # ping / pong at any point (MC_Remote: FragFocus) - transitions = (kind, fragments, boundary, control frame)
+    f = dict(Nodes=R('{"n1"}'), Lanes=R('{"l1"}'), Exists=R('{"n1"}'), Dls=R('{1}'), Bodies=R('{}'), MaxInst=1, ServerMode=True,
+             MaxSend=0, MaxPeer=0, MCKinds=R('{"link","sync","unlink","command","linked","synced","unlinked","event"}'),
+             PathSel="D", OneWay=R('{}'), MaxFrag=3, MCCtl=R('{"ping","pong"}'), _ac=["FragFocus"], _group="server")
     if tier == "quick":
-        return [("D", d)]
+        return [("D", d), ("frag", f)]
     return [("D", dict(d, MCKinds=R('{"event","unlinked","synced"}'))), ("C", dict(d, PathSel="C")), ("A", dict(d, PathSel="A")),
-            ("B", dict(d, PathSel="B"))]
+            ("B", dict(d, PathSel="B")), ("frag", dict(f, MCKinds=R('{"link","sync","unlink","command","linked","synced","unlinked",'
+                                                                     '"event","invalid","auth"}'), MCCtl=R('{"ping","pong","close"}')))]
+
+
+def framing_scenarios(script):
+    """(kind, fragments, boundary after fragment j, control frame) combinations a script exercises: a control frame
+    written between fragment j and j + 1 of an n-fragment message."""
+    out, cur = set(), None
+    for a in script:
+        if a["k"] == "peer_frag":
+            cur = (a["msg"]["kind"], a["of"], a["part"]) if a["part"] < a["of"] else None
+        elif a["k"] == "peer_ctl" and cur is not None:
+            out.add(cur + (a["c"],))
+        elif a["k"] == "peer_send":
+            cur = None
+    return out
 
 
 def table_scenarios(script):
@@ -482,19 +512,26 @@ def table_scenarios(script):
 
 def decorate_bodies(script, rng):
     """the settled table exploration uses empty bodies; give the envelopes bodies (P compares them)."""
+    body = ""
     for a in script:
         if a["k"] == "peer_send" and a["msg"].get("kind") in HAS_BODY:
             a["msg"] = dict(a["msg"], body=rng.choice(["", "b1", "b2"]))
+        elif a["k"] == "peer_frag" and a["msg"].get("kind") in HAS_BODY:
+            if a["part"] == 1:
+                body = rng.choice(["", "b1", "b2"])
+            a["msg"] = dict(a["msg"], body=body)       # every fragment belongs to the same message
     return script
 
 
 SIM_SERVER = dict(Nodes=R('{"n1","n2","n3"}'), Lanes=R('{"l1","l2"}'), Exists=R('{"n1","n2"}'), Dls=R('{1,2,3,4}'), OneWay=R('{4}'),
                   Bodies=R('{"b1","b2"}'), MaxInst=2, ServerMode=True, MaxSend=12, MaxPeer=12,
-                  MCKinds=R('{"link","sync","unlink","command","linked","synced","unlinked","event","invalid","auth"}'), PathSel="C")
+                  MCKinds=R('{"link","sync","unlink","command","linked","synced","unlinked","event","invalid","auth"}'), PathSel="C",
+                  MaxFrag=3, MCCtl=R('{"ping","pong"}'), MaxCtl=8)
 SIM_CLIENT = dict(SIM_SERVER, ServerMode=False, Exists=R('{}'), PathSel="B")
-TRACE_CONST = dict(Nodes=R('{"n1","n2","n3"}'), Lanes=R('{"l1","l2"}'), Bodies=R('{"b1","b2"}'), MaxInst=2,
+TRACE_CONST = dict(Nodes=R('{"n1","n2","n3"}'), Lanes=R('{"l1","l2"}'), Bodies=R('{"b1","b2"}'), MaxInst=2, MaxFrag=3,
                    EnabledFindings=R('{}'))
-ENV_ACTS = {"attach_req", "attach_oneway", "attach_done", "dl_send", "dl_detach", "agent_send", "agent_stop", "peer_send"}
+ENV_ACTS = {"attach_req", "attach_oneway", "attach_done", "dl_send", "dl_detach", "agent_send", "agent_stop", "peer_send",
+            "peer_frag", "peer_ctl"}
 
 
 def enabled_findings():
@@ -517,7 +554,9 @@ def abstract_scripts(behaviours, rng, p_settle=0.25):
             if k in ("agent_send", "agent_stop") and a["node"] in fresh_agents:
                 acts.append({"k": "settle"})
                 fresh_agents.clear()
-            if k == "agent_send":
+            if k == "peer_ctl":
+                acts.append({"k": k, "c": a["c"]})
+            elif k == "agent_send":
                 acts.append({"k": k, "node": a["node"], "msg": a["msg"]})
             elif k == "agent_stop":
                 acts.append({"k": k, "node": a["node"]})
@@ -525,6 +564,10 @@ def abstract_scripts(behaviours, rng, p_settle=0.25):
                 acts.append(dict(a))
             if k == "peer_send" and a["msg"]["kind"] == "invalid":
                 break              # the task terminates: nothing scripted makes sense afterwards
+            if k == "peer_frag" and a["part"] == a["of"] and a["msg"]["kind"] == "invalid":
+                break
+            if k == "peer_ctl" and a["c"] == "close":
+                break
             if rng.random() < p_settle:
                 acts.append({"k": "settle"})
                 fresh_agents.clear()
@@ -572,8 +615,20 @@ def concretise(script, rng, extra_bodies=()):
             return dict(m)
         return {"kind": m["kind"], "node": nodes[m["node"]], "lane": lanes[m["lane"]], "body": bodies[m["body"]]}
     out = []
+    frag = {}                 # text / cut points of the fragmented message under way
     for a in script:
         a = dict(a)
+        if a["k"] == "peer_frag":
+            if a["part"] == 1:
+                frag = {"cuts": sorted(rng.choice([0.02, 0.2, 0.35, 0.5, 0.66, 0.8, 0.97, 1.0]) for _ in range(a["of"] - 1))}
+                if a["msg"]["kind"] == "invalid":
+                    frag["text"] = rng.choice(INVALID_FRAMES)
+                elif a["msg"]["kind"] == "auth":
+                    frag["text"] = rng.choice(AUTH_FRAMES)
+            a.update(frag)
+            a["msg"] = cmsg(a["msg"])
+            out.append(a)
+            continue
         if "msg" in a:
             if a["msg"]["kind"] == "invalid":
                 a["text"] = rng.choice(INVALID_FRAMES)
@@ -608,7 +663,7 @@ def abstract_log(log, maps):
     for e in log:
         if e["k"] == "skip":
             continue            # an environment move that was not enabled in this run
-        e = {k: v for k, v in e.items() if k not in ("text", "reason", "err")}
+        e = {k: v for k, v in e.items() if k not in ("text", "reason", "err", "cuts", "slots")}
         if "msg" in e:
             e["msg"] = amsg(e["msg"])
         if "node" in e:
@@ -666,21 +721,21 @@ def routing_jobs(tier, wd):
     jobs = []
     for name, k, live in rt_b3_configs(tier):
         def b3(name=name, k=k, live=live):
-            c = core.cfg(spec="FairSpec" if live else None, constants=k, invariants=RT_INV,
+            c = core.cfg(spec="FairSpec" if live else None, constants=mc(k), invariants=RT_INV,
                          properties=["RoutingProps"] + (["AllLeave", "AllRouted"] if live else []),
                          constraints=["Bound"], action_constraints=RT_AC)
             return core.run_tlc("MC_Remote", c, os.path.join(wd, "rt_b3_" + name), workers=1, timeout=1700)
         jobs.append((("rt_b3", name), b3))
     for name, k in tbl_configs(tier):
         def tbl(name=name, k=k):
-            c = core.cfg(constants=k, invariants=RT_INV + ["TblInitDump"], properties=["RoutingProps"], view="TblView",
-                         action_constraints=RT_AC + ["Settled", "TblEdgeDump"])
+            c = core.cfg(constants=mc(k), invariants=RT_INV + ["TblInitDump"], properties=["RoutingProps"], view="TblView",
+                         action_constraints=RT_AC + list(k.get("_ac", [])) + ["Settled", "TblEdgeDump"])
             return core.run_tlc("MC_Remote", c, os.path.join(wd, "rt_tbl_" + name), workers=1, timeout=1700)
         jobs.append((("rt_tbl", name), tbl))
     n_sim = 60 if tier == "quick" else 1000
     for name, k in (("server", SIM_SERVER), ("client", SIM_CLIENT)):
         def sim(name=name, k=k):
-            c = core.cfg(constants=k, invariants=RT_INV + ["InitDump"], view="View", constraints=["Bound"],
+            c = core.cfg(constants=mc(k), invariants=RT_INV + ["InitDump"], view="View", constraints=["Bound"],
                          action_constraints=RT_AC[:2] + ["EdgeDump"])
             return core.run_tlc("MC_Remote", c, os.path.join(wd, "rt_sim_" + name), workers=1, timeout=1700,
                                 simulate="num=%d" % (n_sim if name == "server" else n_sim // 3),
@@ -692,6 +747,7 @@ def routing_jobs(tier, wd):
 def routing_part(tier, out, wd, rng, stats, cov, res):
     st = dict(b3_states=0, b3_transitions=0, scripts=0, script_actions=0, events=0, accepted=0, rejected=0,
               deliveries=0, wire_frames=0, finds=0, closed_runs=0, tbl_states=0, tbl_transitions=0, tbl_scripts=0,
+              scripts_control_frame_between_fragments=0, scripts_fragmented_message=0, framing_combinations=0,
               scripts_late_envelope_for_emptied_lane_with_live_sibling=0,
               scripts_late_envelope_then_envelope_for_live_sibling=0, scripts_envelope_for_unregistered_lane=0)
     for (kind, name), r in sorted((k, v) for k, v in res.items() if k[0].startswith("rt_")):
@@ -722,11 +778,13 @@ def routing_part(tier, out, wd, rng, stats, cov, res):
         st["b3_states"] += r.distinct
         st["b3_transitions"] += g.n_edges
         paths = g.covering_paths(extend=4, rng=rng)
-        for j, s in enumerate(abstract_scripts(paths, rng, p_settle=1.0)):
+        grp = k.get("_group", "client")
+        for j, s in enumerate(abstract_scripts(paths, rng, p_settle=1.0 if grp == "client" else 0.5)):
             s = decorate_bodies(s, rng)
             acts, maps = concretise(s, rng)
-            cfg = {"server": False, "exists": [], "max_inst": 2, "buf": rng.choice([4096, 96, 40])}
-            cases.append({"id": "tbl%s%d" % (name, j), "cfg": cfg, "acts": acts, "maps": maps, "abstract": s, "group": "client"})
+            cfg = {"server": grp == "server", "exists": [maps["nodes"][n] for n in (("n1", "n2") if grp == "server" else ())],
+                   "max_inst": 2, "buf": rng.choice([4096, 96, 40])}
+            cases.append({"id": "tbl%s%d" % (name, j), "cfg": cfg, "acts": acts, "maps": maps, "abstract": s, "group": grp})
             st["tbl_scripts"] += 1
     # every malformed frame of the pool once, between two deliverable envelopes: nothing after it is delivered
     for j, text in enumerate(INVALID_FRAMES):
@@ -738,6 +796,17 @@ def routing_part(tier, out, wd, rng, stats, cov, res):
         acts[4]["text"] = text
         cases.append({"id": "bad%d" % j, "cfg": {"server": False, "exists": [], "max_inst": 2, "buf": 4096}, "acts": acts,
                       "maps": maps, "abstract": s, "group": "client"})
+    # a close frame from the peer (idle / between two fragments): what was complete before it is delivered, nothing after
+    ev = lambda b: {"kind": "event", "node": "n1", "lane": "l1", "body": b}
+    for j, mid in enumerate((False, True)):
+        s = [{"k": "attach_req", "d": 1, "node": "n1", "lane": "l1"}, {"k": "attach_done", "d": 1},
+             {"k": "peer_frag", "msg": ev("b1"), "part": 1, "of": 2}, {"k": "peer_ctl", "c": "ping"},
+             {"k": "peer_frag", "msg": ev("b1"), "part": 2, "of": 2}]
+        s += [{"k": "peer_frag", "msg": ev("b2"), "part": 1, "of": 3}] if mid else [{"k": "peer_send", "msg": ev("b2")}]
+        s += [{"k": "peer_ctl", "c": "close"}]
+        acts, maps = concretise(s, rng)
+        cases.append({"id": "close%d" % j, "cfg": {"server": False, "exists": [], "max_inst": 2, "buf": 4096}, "acts": acts,
+                      "maps": maps, "abstract": s, "group": "client"})
     # many sources on one socket
     wides = [(3, 3), (70, 2)] if tier == "quick" else [(3, 5), (70, 3), (130, 2)]
     for n_dl, per in wides:
@@ -745,11 +814,23 @@ def routing_part(tier, out, wd, rng, stats, cov, res):
         acts, maps = concretise(s, rng, wide_bodies(n_dl, per))
         cases.append({"id": "wide%d" % n_dl, "cfg": {"server": True, "exists": [], "max_inst": 2, "buf": 4096, "reg_buf": 8},
                       "acts": acts, "maps": maps, "abstract": s, "group": "wide%d" % n_dl, "n_dl": n_dl, "per": per})
+    framing = set()
     for c in cases:
+        fs = framing_scenarios(c["abstract"])
+        framing |= fs
+        st["scripts_control_frame_between_fragments"] += 1 if fs else 0
+        st["scripts_fragmented_message"] += 1 if any(a["k"] == "peer_frag" for a in c["abstract"]) else 0
         sc = table_scenarios(c["abstract"])
         st["scripts_late_envelope_for_emptied_lane_with_live_sibling"] += sc["late"]
         st["scripts_late_envelope_then_envelope_for_live_sibling"] += sc["late_then_sibling"]
         st["scripts_envelope_for_unregistered_lane"] += sc["unregistered"]
+    st["framing_combinations"] = len(framing)
+    want = {(kd, n, j, c_) for kd in KINDS_REQ + KINDS_RESP for n in (2, 3) for j in range(1, n) for c_ in ("ping", "pong")}
+    st["framing_combinations_missing"] = sorted("%s/%d/%d/%s" % x for x in want - framing)
+    core.log("[C11] framing: %d scripts fragment a message, %d write a control frame between two fragments; %d of the %d combinations "
+             "kind x fragments x boundary x ping/pong covered" % (st["scripts_fragmented_message"],
+                                                                   st["scripts_control_frame_between_fragments"],
+                                                                   len(want & framing), len(want)))
     results = run_task_cases(cases, wd, "task")
     groups = {}
     for c, r in zip(cases, results):
